@@ -129,10 +129,10 @@ theorem BoundUpload.spec {s : State} {u : UploadRef} {b k : Bytes} (h : BoundUpl
       simp only [abs_upload_lookup, hl, Option.map_some]
       simp [upOf, h.1, h.2]
 
-/-- `create_multipart_upload` comparable: the bucket name and key are admissible and the bucket exists
-    [else fs:create-upload-not-validated]; the metadata file name fits [fs:long-key-internal-error] -/
-def CreateUploadOk (s : State) (b k : Bytes) : Prop :=
-  bucketOk b = true ∧ keyOk k = true ∧ alHas b s.buckets = true ∧ sideTooLong b k true = false
+/-- `create_multipart_upload` comparable: the bucket name agrees and the metadata file name fits
+    [else fs:long-key-internal-error] -/
+def CreateUploadOk (_s : State) (b k : Bytes) : Prop :=
+  NameOk b ∧ sideTooLong b k true = false
 
 theorem absParts_fresh {s : State} {id : Nat} (h : ∀ e ∈ s.parts, e.1.1 ≠ id) : absParts s id = [] := by
   unfold absParts
@@ -209,21 +209,32 @@ theorem createUpload_refines (H : Hashes) (dl : Nat) {s : State} (hi : Inv s) {w
     abs (step H dl s (.createMultipartUpload who b k md)).1 =
       (StoreSpec.step H (abs s) (.createMultipartUpload who b k md)).1 ∧
     Inv (step H dl s (.createMultipartUpload who b k md)).1 := by
-  obtain ⟨hbo, hko, hhas, hshort⟩ := hg
-  have hstep : step H dl s (.createMultipartUpload who b k md) =
-      ({ s with issued := s.issued + 1, uploads := alInsert (s.issued + 1) ⟨who, b, k⟩ s.uploads,
-                upMetas := md.elim s.upMetas fun m => alInsert (b, k, s.issued + 1) m s.upMetas },
-        .created (s.issued + 1)) := by
-    cases md <;> simp [step, hshort]
-  have hiss : (abs s).issued = s.issued := rfl
-  have hspec : StoreSpec.step H (abs s) (.createMultipartUpload who b k md) =
-      ({ abs s with issued := s.issued + 1,
-                    uploads := alInsert (s.issued + 1) ⟨who, b, k, md.getD [], []⟩ (abs s).uploads },
-        .created (s.issued + 1)) := by
-    simp [StoreSpec.step, hbo, hko, abs_alHas, hhas, hiss]
-  rw [hstep, hspec]
-  obtain ⟨h1, h2⟩ := createUpload_core (s' := { s with issued := s.issued + 1, uploads := alInsert (s.issued + 1) ⟨who, b, k⟩ s.uploads, upMetas := md.elim s.upMetas fun m => alInsert (b, k, s.issued + 1) m s.upMetas }) hi (who := who) (b := b) (k := k) (md := md) rfl rfl rfl rfl rfl rfl rfl
-  exact ⟨rfl, h1, h2⟩
+  obtain ⟨hname, hshort⟩ := hg
+  rcases hname.cases with ⟨hbo, hbd⟩ | ⟨hbo, hbd⟩
+  · cases hkp : keyPath k with
+    | none =>
+      have hko : keyOk k = false := by rw [keyOk_iff_keyPath, hkp]; rfl
+      simp [step, StoreSpec.step, objPath, hbd, hkp, hbo, hko, hi]
+    | some p =>
+      have hko : keyOk k = true := by rw [keyOk_iff_keyPath, hkp]; rfl
+      by_cases hhas : alHas b s.buckets = true
+      · have hstep : step H dl s (.createMultipartUpload who b k md) =
+            ({ s with issued := s.issued + 1, uploads := alInsert (s.issued + 1) ⟨who, b, k⟩ s.uploads,
+                      upMetas := md.elim s.upMetas fun m => alInsert (b, k, s.issued + 1) m s.upMetas },
+              .created (s.issued + 1)) := by
+          cases md <;> simp [step, objPath, hbd, hkp, hhas, hshort]
+        have hiss : (abs s).issued = s.issued := rfl
+        have hspec : StoreSpec.step H (abs s) (.createMultipartUpload who b k md) =
+            ({ abs s with issued := s.issued + 1,
+                          uploads := alInsert (s.issued + 1) ⟨who, b, k, md.getD [], []⟩ (abs s).uploads },
+              .created (s.issued + 1)) := by
+          simp [StoreSpec.step, hbo, hko, abs_alHas, hhas, hiss]
+        rw [hstep, hspec]
+        obtain ⟨h1, h2⟩ := createUpload_core (s' := { s with issued := s.issued + 1, uploads := alInsert (s.issued + 1) ⟨who, b, k⟩ s.uploads, upMetas := md.elim s.upMetas fun m => alInsert (b, k, s.issued + 1) m s.upMetas }) hi (who := who) (b := b) (k := k) (md := md) rfl rfl rfl rfl rfl rfl rfl
+        exact ⟨rfl, h1, h2⟩
+      · have hhas' : alHas b s.buckets = false := by simpa using hhas
+        simp [step, StoreSpec.step, objPath, hbd, hkp, hbo, hko, abs_alHas, hhas', hi]
+  · simp [step, StoreSpec.step, objPath, hbd, hbo, hi]
 
 end S3V.FsStore
 
